@@ -110,3 +110,65 @@ Proof. vm_compute. repeat split; reflexivity. Qed.
 Example ex_yomi_too_long :
   yomi_edits ex_K ex_R (mem_n [40; 65288]) (mem_n [41; 65289]) 3 [24499; 23798; 65288; 12392; 12367; 12375; 12414; 65289; 12395] = [].
 Proof. vm_compute. reflexivity. Qed.
+
+(* ---- C07 composed with C08/C01: the hypotheses of the stack theorems are satisfiable, on a non-trivial stack ----
+   Default (table a->x, ab->y, oracle ex_o, general path) -> ProlongedSoundMark {ー} -> IgnoreYomigana (（ ） max 4), and the
+   same three in another order, on  "abＡーー徳（と）c"  *)
+From Coq Require Import ZArith.
+From SudachiVerif Require Model.Buffer Proofs.PipelineFull.
+From SudachiVerif Require Import Proofs.NormalizeBuffer.
+Local Open Scope N_scope.
+
+Definition st_default : plugin :=
+  P_default (o_lower ex_o) (o_nfkc ex_o) (o_qc ex_o) (o_upper ex_o) ex_tb ex_ign (fun _ => false).
+Definition st_psm : plugin := P_psm (mem_n [12540]) [12540].
+Definition st_yomi : plugin := P_yomi ex_K ex_R (mem_n [40; 65288]) (mem_n [41; 65289]) 4.
+Definition st_t0 : text := [97; 98; 65313; 12540; 12540; 24499; 65288; 12392; 65289; 99].
+
+Example ex_st_default_wf : plugin_wf st_default.
+Proof.
+  cbn [plugin_wf st_default]. split; [exact ex_table_wf|]. split; [exact ex_law_qc|]. split; [exact ex_law_head|].
+  intros t H. discriminate H.
+Qed.
+
+Example ex_stack_wf : Forall plugin_wf [st_default; st_psm; st_yomi] /\ Forall plugin_wf [st_yomi; st_default; st_psm; st_default].
+Proof.
+  split.
+  - apply Forall_cons; [exact ex_st_default_wf|]. apply Forall_cons; [exact I|]. apply Forall_cons; [exact I|]. apply Forall_nil.
+  - apply Forall_cons; [exact I|]. apply Forall_cons; [exact ex_st_default_wf|]. apply Forall_cons; [exact I|].
+    apply Forall_cons; [exact ex_st_default_wf|]. apply Forall_nil.
+Qed.
+
+(* the composition of the specifications: "yaー徳c" — key ab replaced, Ａ lower-cased + NFKC, mark run collapsed, reading removed *)
+Example ex_stack_spec : stack_spec [st_default; st_psm; st_yomi] st_t0 = [121; 97; 12540; 24499; 99]
+                        /\ stack_spec [st_yomi; st_default; st_psm; st_default] st_t0 = [121; 120; 12540; 24499; 99].   (* the second Default pass meets the key a *)
+Proof. vm_compute. split; reflexivity. Qed.
+
+Example ex_stack_nonempty : stack_nonempty [st_default; st_psm; st_yomi] st_t0.
+Proof. cbn [stack_nonempty]. repeat split; try (intros _; vm_compute; discriminate). Qed.
+
+Example ex_stack_fits : stack_fits Buffer.the_cfg [st_default; st_psm; st_yomi] st_t0.
+Proof. cbn [stack_fits]. repeat split; vm_compute; discriminate. Qed.
+
+(* the model buffer really runs the stack: start_build, three commits of translated edits, text = enc of the composition *)
+Example ex_stack_runs :
+  match Buffer.start_build Buffer.the_cfg (enc st_t0) with
+  | Buffer.Ok s0 =>
+      match Buffer.commit Buffer.the_cfg s0 (tr_edits st_t0 (plugin_edits st_default st_t0)) with
+      | Buffer.Ok s1 =>
+          let t1 := plugin_spec st_default st_t0 in
+          match Buffer.commit Buffer.the_cfg s1 (tr_edits t1 (plugin_edits st_psm t1)) with
+          | Buffer.Ok s2 =>
+              let t2 := plugin_spec st_psm t1 in
+              match Buffer.commit Buffer.the_cfg s2 (tr_edits t2 (plugin_edits st_yomi t2)) with
+              | Buffer.Ok s3 => Buffer.cur s3 = enc [121; 97; 12540; 24499; 99]
+                                /\ Buffer.m2o s3 = [0; 2; 5; 11; 11; 11; 12; 13; 23; 24]%nat
+              | _ => False
+              end
+          | _ => False
+          end
+      | _ => False
+      end
+  | _ => False
+  end.
+Proof. vm_compute. split; reflexivity. Qed.
